@@ -377,6 +377,22 @@ let nolint_line l =
   let bytes = match ints_of_line l with _ :: b -> b | [] -> [] in
   print_endline (if nolint_contains (List.map nat_of_int bytes) then "1" else "0")
 
+(* richflow case (propagation of rich check effects, model M13): n {nsuccs succs* live ngen gen* nkill kill*}^n
+   -> the effects at the end of every block, sorted; "NOFUEL" if the model's iteration did not stabilise *)
+let richflow_line l =
+  let a = Array.of_list (ints_of_line l) in
+  let pos = ref 0 in
+  let next () = let v = a.(!pos) in incr pos; v in
+  let lst () = let k = next () in List.init k (fun _ -> nat_of_int (next ())) in
+  let n = next () in
+  let rows = List.init n (fun _ -> let s = lst () in let lv = next () = 1 in let g = lst () in let k = lst () in (s, lv, g, k)) in
+  let g = { rc_succs = List.map (fun (s, _, _, _) -> s) rows; rc_live = List.map (fun (_, l, _, _) -> l) rows;
+            rc_gen = List.map (fun (_, _, g, _) -> g) rows; rc_kill = List.map (fun (_, _, _, k) -> k) rows } in
+  match propagate g (nat_of_int 10000) with
+  | None -> print_endline "NOFUEL"
+  | Some st ->
+    print_endline (String.concat " ; " (List.map (fun es -> String.concat "," (List.map string_of_int (List.sort compare (List.map int_of_nat es)))) st))
+
 let () =
   let mode = if Array.length Sys.argv > 1 then Sys.argv.(1) else "engine" in
   try
@@ -394,6 +410,7 @@ let () =
          | "infer" -> infer_line l
          | "nonce" -> nonce_line l
          | "nolint" -> nolint_line l
+         | "richflow" -> richflow_line l
          | _ -> failwith "unknown mode")
     done
   with End_of_file -> ()
